@@ -315,6 +315,23 @@ func errPolarity(p *Prog, fn *Fn) []errDrop {
 	// function returns a literal nil error
 	ff := &Flow{P: p, Fn: fn, May: true, Entry: Facts{}}
 	ff.Edge = func(cond ast.Expr, taken bool, f Facts) {
+		// the branch that handles the failure (a non-empty `if err != nil { … }` body: a fallback, a log line) is
+		// the program looking at the failure; what is reported is the failure *falling through* — the else side
+		// of `if err == nil { … }`, or an empty handler
+		var top ast.Node = cond
+		for {
+			par := p.ParentIn(fn, top)
+			if _, isExpr := par.(ast.Expr); !isExpr {
+				break
+			}
+			top = par
+		}
+		if ifs, ok := p.ParentIn(fn, top).(*ast.IfStmt); ok && ifs.Cond == top && len(ifs.Body.List) > 0 {
+			// does this edge lead into the body? (for a sub-condition of `a && b` the true edge may; of `a || b` it does)
+			if taken {
+				return
+			}
+		}
 		for _, a := range splitCond(cond, taken) {
 			if x, isNil, ok := nilTest(a); ok && !isNil {
 				if id, ok := ast.Unparen(x).(*ast.Ident); ok {
